@@ -626,6 +626,25 @@ def enumerate_mutations(c, rng, per_kind=2):
                                                                     "wire": wi, "pos": k})
     for kind, lst in moves.items():
         out.extend(pick(lst, per_kind + (2 if kind == "move_same_inst" else 0)))
+    # one connection added / dropped / moved to another net
+    extra = {"connect_free": [], "disconnect": [], "move_to_other_wire": []}
+    for li, di in sites:
+        d = c["libraries"][li]["definitions"][di]
+        conn = _connected(d)
+        free = [p for p in _all_pins(c, d) if p not in conn]
+        wires = [(ci, wi) for ci, cb in enumerate(d["cables"]) for wi in range(len(cb["wires"]))]
+        for (ci, wi) in wires:
+            w = d["cables"][ci]["wires"][wi]
+            for q in free[:3]:
+                extra["connect_free"].append({"op": "connect_free", "lib": li, "def": di, "cable": ci, "wire": wi, "to": list(q)})
+            for k in range(len(w)):
+                extra["disconnect"].append({"op": "disconnect", "lib": li, "def": di, "cable": ci, "wire": wi, "pos": k})
+                for (cj, wj) in wires:
+                    if (cj, wj) != (ci, wi):
+                        extra["move_to_other_wire"].append({"op": "move_to_other_wire", "lib": li, "def": di, "cable": ci, "wire": wi,
+                                                            "pos": k, "cable2": cj, "wire2": wj})
+    for kind, lst in extra.items():
+        out.extend(pick(lst, per_kind))
     ports, cables, insts = [], [], []
     for li, di in sites:
         d = c["libraries"][li]["definitions"][di]
@@ -750,6 +769,18 @@ def apply_mutation(B, m):
             new.wire.disconnect_pin(new)
         w.disconnect_pin(old)
         w.connect_pin(new, position=m["pos"])
+    elif op == "connect_free":
+        d = D()
+        d.cables[m["cable"]].wires[m["wire"]].connect_pin(_live_pin(d, m["to"]))
+    elif op == "disconnect":
+        w = D().cables[m["cable"]].wires[m["wire"]]
+        w.disconnect_pin(w.pins[m["pos"]])
+    elif op == "move_to_other_wire":
+        d = D()
+        w = d.cables[m["cable"]].wires[m["wire"]]
+        q = w.pins[m["pos"]]
+        w.disconnect_pin(q)
+        d.cables[m["cable2"]].wires[m["wire2"]].connect_pin(q)
     elif op == "swap_pins":
         w = D().cables[m["cable"]].wires[m["wire"]]
         k = m["pos"]
@@ -902,7 +933,7 @@ def apply_mutation(B, m):
         raise ValueError("unknown mutation " + op)
 
 
-IN_STATEMENT = {"move_pin", "port_dir", "port_widen", "port_narrow", "port_array", "cable_widen", "cable_narrow",
+IN_STATEMENT = {"move_pin", "connect_free", "disconnect", "move_to_other_wire", "port_dir", "port_widen", "port_narrow", "port_array", "cable_widen", "cable_narrow",
                 "repoint", "repoint_top", "prop_change", "prop_dropkey", "prop_dropentry", "prop_dropall",
                 "prop_dropall_top", "add_library", "drop_library", "add_definition", "drop_definition", "add_port",
                 "drop_port", "add_cable", "drop_cable", "add_instance", "drop_instance"}
@@ -1298,7 +1329,11 @@ def shard(seed, idx, n_netlists, deadline_s, tier):
                                 handle({"a": r1.cb, "copy": kind, "mut": [m]}, kind + "+" + m["op"])
             # 2. every kind of single mutation of a copy
             for kind in ("rebuild", "clone"):
-                ms = enumerate_mutations(ca, rng, per_kind=2 if kind == "rebuild" else 1)
+                pk = 2 if kind == "rebuild" else 1
+                if tier == "thorough" and kind == "rebuild" and name == "small":
+                    pk = 10 ** 6          # every mutation site of the netlist
+                    res.dist("exhaustive-sites-netlists")
+                ms = enumerate_mutations(ca, rng, per_kind=pk)
                 for m in ms:
                     handle({"a": ca, "copy": kind, "mut": [m]}, kind + "+" + m["op"] + (":" + m["kind"] if "kind" in m else ""))
             # 3. the original itself carries oddities (assignment names, wildcard names), copy faithful
